@@ -496,6 +496,15 @@ int cif_container_get_frame(
         const UChar *code,
         cif_frame_tp **frame
         ) {
+    return cif_container_get_frame_internal(container, code, 0, frame);
+}
+
+int cif_container_get_frame_internal(
+        cif_container_tp *container,
+        const UChar *code,
+        int lenient,
+        cif_frame_tp **frame
+        ) {
     FAILURE_HANDLING;
     cif_frame_tp *temp;
     struct cif_s *cif;
@@ -519,7 +528,8 @@ int cif_container_get_frame(
 
         temp->code = NULL;
         temp->code_orig = NULL;
-        result = cif_normalize_name(code, -1, &(temp->code), CIF_INVALID_FRAMECODE);
+        result = ((lenient == 0) ? cif_normalize_name(code, -1, &(temp->code), CIF_INVALID_FRAMECODE)
+                                 : cif_normalize(code, -1, &(temp->code)));
         if (result != CIF_OK) {
             SET_RESULT(result);
         } else {
